@@ -45,6 +45,7 @@ def gen_cases(rng, tier):
             add(x, 'x("%s")' % n)           # a quoted name inside the list is a literal item, never a selection
             wn = recvlib.w(n)                # a keyword is written `r#name` as an item
             add(x, "x(%s)" % wn)
+            add(x, "x(::%s)" % wn)           # a global path is a different path
             add(x, "x(%s = 1)" % wn)
             add(x, 'x(%s = "s")' % wn)
             add(x, "x(%s())" % wn)
